@@ -261,7 +261,7 @@ def boot(listing=None, hide_pycache=False):
 # --------------------------------------------------------------------------------------
 class Monitor:
     """Per-analysis recording of the main loop (one event per pop_tokens)."""
-    __slots__ = ("pops", "updated", "ntokens", "who_emitted", "cur_rule", "files")
+    __slots__ = ("pops", "updated", "ntokens", "who_emitted", "cur_rule", "files", "seen_runs", "repeats")
 
     def reset(self):
         self.files = []     # one record per Context created since the reset (= per file examined)
@@ -270,6 +270,8 @@ class Monitor:
         self.ntokens = 0
         self.who_emitted = []
         self.cur_rule = None
+        self.seen_runs = set()   # (context id, rule, tokens left) of every run_rules call
+        self.repeats = []        # the first few (rule, tokens left) that were run more than once: a statement examined twice
 
 
 MON = Monitor()
@@ -344,6 +346,12 @@ def _install_wrappers(ns):
             clock.expire("ticks")
         prev = mon.cur_rule
         mon.cur_rule = rule.__name__
+        key = (id(context), rule.__name__, len(context.tokens))
+        if key in mon.seen_runs:
+            if len(mon.repeats) < 5:
+                mon.repeats.append((rule.__name__, len(context.tokens)))
+        else:
+            mon.seen_runs.add(key)
         try:
             return orig_run_rules(self, context, rule)
         finally:
@@ -717,6 +725,7 @@ class Executor:
             res["diags_site"] = site_of_tb(e.__traceback__)
         res["stdout"] = "".join(s for t, s in out if t == "o")
         res["pops"] = MON.pops
+        res["repeats"] = list(MON.repeats)
         res["who"] = MON.who_emitted
         res["ticks"] = CLOCK.ticks
         res["lex_ticks"] = CLOCK.lex_ticks
@@ -1039,6 +1048,7 @@ class Executor:
         res["reports"] = reports
         res["who"] = MON.who_emitted
         res["pops"] = MON.pops
+        res["repeats"] = list(MON.repeats)
         res["ntokens"] = MON.ntokens
         res["files_mon"] = [{"path": self.relpath(fr["path"]), "ntokens": fr["ntokens"], "iterations": len(fr["pops"]),
                              "unmatched": sum(1 for p in fr["pops"] if p[3] is None),
